@@ -273,7 +273,11 @@ func runAOF(t *testing.T, p *Plan, prop string) *Outcome {
 	a := &aofRun{t: t, p: p, prop: prop, o: o}
 	a.root = filepath.Join(scratchDir(), fmt.Sprintf("r%d", runCounter.Add(1)))
 	_ = os.MkdirAll(a.root, 0o755)
-	defer os.RemoveAll(a.root)
+	if os.Getenv("DSIM_KEEP") == "" {
+		defer os.RemoveAll(a.root)
+	} else {
+		fmt.Println("KEEP", a.root)
+	}
 	br := RunBubble(t, func() {
 		s := NewSim()
 		s.logOn = true
